@@ -824,11 +824,25 @@ func c39Tests(fn *ssa.Function) (tests map[*ssa.BasicBlock]*c39Test, odd []ssa.I
 		}
 		cond, neg := ifi.Cond, false
 		for {
-			u, ok := cond.(*ssa.UnOp)
-			if !ok || u.Op != token.NOT {
-				break
+			if u, ok := cond.(*ssa.UnOp); ok && u.Op == token.NOT {
+				cond, neg = u.X, !neg
+				continue
 			}
-			cond, neg = u.X, !neg
+			// `x == true`, `x != false`, `false == x` …: the same test spelled with a boolean constant
+			if bo, ok := cond.(*ssa.BinOp); ok && (bo.Op == token.EQL || bo.Op == token.NEQ) {
+				x, k := bo.X, bo.Y
+				if _, isK := x.(*ssa.Const); isK {
+					x, k = k, x
+				}
+				if kc, isK := k.(*ssa.Const); isK && kc.Value != nil && kc.Value.Kind() == constant.Bool {
+					if constant.BoolVal(kc.Value) != (bo.Op == token.EQL) {
+						neg = !neg
+					}
+					cond = x
+					continue
+				}
+			}
+			break
 		}
 		call, ok := cond.(*ssa.Call)
 		if !ok || !c39FnIs(c39StaticCallee(&call.Call), "lang", "Process", "HasCancelled") {
